@@ -112,7 +112,7 @@ def run_case(case):
                 break
             path = os.path.join(scratch, f"c16-{os.getpid()}-{shash(prog)}-{form}.pkl")
             with open(path, "wb") as fh:
-                pickle.dump({"pickle": blob, "origin": origin, "flags": flags, "shuffle": method}, fh)
+                pickle.dump({"pickle": blob, "origin": origin, "flags": flags, "shuffle": method, "form": form}, fh)
             env = dict(os.environ)
             env["PYTHONPATH"] = VERIF_DIR + (os.pathsep + env["PYTHONPATH"] if env.get("PYTHONPATH") else "")
             # "another process" means another hash seed as well (the worker runs with PYTHONHASHSEED=0)
